@@ -1,10 +1,12 @@
 #!/bin/bash
-# Runs every seeded change against the quick check of its property; prints one line per change.
+# Runs every seeded change against the quick check of its property (or of the property named by meta.json's sweep_check); prints one line per change.
 # (applies each patch to /repo in turn and always restores it; do not run anything else against /repo meanwhile)
 cd "$(dirname "$0")/.."
 for d in seeded/*/; do
   id=$(basename $d); prop=${id%-*}
   if grep -q '"obsolete": true' $d/meta.json 2>/dev/null; then echo "$id obsolete (see meta.json)"; continue; fi
+  other=$(sed -n 's/.*"sweep_check": "\(C[0-9]*\)".*/\1/p' $d/meta.json 2>/dev/null)
+  if [ -n "$other" ]; then prop=$other; fi
   out=$(tools/seedrun.sh $d/patch.diff $prop 2>&1 | grep "^== $prop rc=" | head -1 | cut -c1-120)
   echo "$id $out"
 done
